@@ -13,9 +13,9 @@ import (
 
 // Cell is one cell of the policy matrix, expanded into a history.
 type Cell struct {
-	Mode    string   `json:"mode"`    // "" | verify | verify_log | none
-	Signer  string   `json:"signer"`  // good | unknown-signer | badsig
-	Intake  string   `json:"intake"`  // conf-file | conf-url | cdp-first | refresh | refresh-after-restart
+	Mode    string   `json:"mode"`   // "" | verify | verify_log | none
+	Signer  string   `json:"signer"` // good | unknown-signer | badsig
+	Intake  string   `json:"intake"` // conf-file | conf-url | cdp-first | refresh | refresh-after-restart
 	Disk    bool     `json:"disk"`
 	Bg      bool     `json:"background"`
 	History sim.Spec `json:"history"`
@@ -105,6 +105,32 @@ func cells(seed int) []Cell {
 			}
 		}
 	}
+	// configuration change across a restart: a configured list accepted under verify_log / none must not be in force
+	// once the process is restarted with 'verify' (or the mode unset) unless it verifies
+	for _, m1 := range []string{"verify_log", "none"} {
+		for _, m2 := range []string{"verify", ""} {
+			for _, signer := range []string{"unknown-signer", "badsig", "good"} {
+				for _, intake := range []string{"conf-file", "conf-url"} {
+					for _, bg := range []bool{false, true} {
+						c := Cell{Mode: m1 + "->" + m2, Signer: signer, Intake: intake + "+mode-change", Disk: true, Bg: bg}
+						h := sim.Spec{Issuers: 1, Config: sim.Config{Disk: true, Background: bg, Sig: m1, Strict: true, TrustSigners: true}}
+						h.CDPs = []sim.CDPSpec{{Issuer: 0, Kind: "http", Twin: -1}}
+						h.Initial = []sim.Content{{Kind: signer, Set: subset(r, r.IntN(3))}}
+						if intake == "conf-file" {
+							h.Config.ConfFiles = []int{0}
+						} else {
+							h.Config.ConfURLs = []int{0}
+						}
+						h.Events = append(h.Events, probes(-1)...)
+						h.Events = append(h.Events, sim.Event{Kind: "restart", SetSig: true, Sig: m2})
+						h.Events = append(h.Events, probes(-1)...)
+						c.History = h
+						out = append(out, c)
+					}
+				}
+			}
+		}
+	}
 	return out
 }
 
@@ -124,9 +150,9 @@ func runCell(c Cell, x *ev.Ctx) error {
 }
 
 var spec = ev.Spec[Cell]{
-	ID:  "C16",
-	Run: runCell,
-	Rule: "exhaustive matrix: signature mode {unset, verify, verify_log, none} x signer {resolvable, unknown signer, wrong signature by a same-name sibling} x intake path {provision-time crl_file, provision-time crl_url, first CDP fetch, refresh to a newer list, refresh after a restart (disk)} x storage x fetch mode; each cell is expanded into a history (probe handshakes before/after the intake, then origin broken, restart, probe handshakes again) executed on a real checker and compared with the reference model: under verify/unset a list is in force iff signer resolvable and signature right, on every path and after restart; under verify_log/none every parseable list is in force, provisioning succeeds and a refresh brings the NEW content into force. List contents, AKI presence and encoding are drawn from VERIF_SEED. Every cell is non-trivial.",
+	ID:          "C16",
+	Run:         runCell,
+	Rule:        "exhaustive matrix: signature mode {unset, verify, verify_log, none} x signer {resolvable, unknown signer, wrong signature by a same-name sibling} x intake path {provision-time crl_file, provision-time crl_url, first CDP fetch, refresh to a newer list, refresh after a restart (disk)} x storage x fetch mode, plus 48 cells in which a configured list accepted under verify_log / none is met again after a restart under verify / unset; each cell is expanded into a history (probe handshakes before/after the intake, then origin broken, restart, probe handshakes again) executed on a real checker and compared with the reference model: under verify/unset a list is in force iff signer resolvable and signature right, on every path and after restart; under verify_log/none every parseable list is in force, provisioning succeeds and a refresh brings the NEW content into force. List contents, AKI presence and encoding are drawn from VERIF_SEED. Every cell is non-trivial.",
 	Assumptions: []string{"configured CRLs in mode verify need a configured trusted signer (no handshake chain exists at provisioning); the cells configure one"},
 }
 
